@@ -29,6 +29,8 @@ type built struct {
 	close   func()
 	// finish judges what the target saw once the run is over; returns the number of requests served
 	finish func() int
+	// expectTags (optional): sample tag -> number of samples the run must have left
+	expectTags func() map[string]int
 	text   string // the ammo / scenario file, for messages
 }
 
@@ -166,6 +168,15 @@ func buildHTTP(c Case, b *built, viol *violations) (gun, ammo map[string]any, er
 		}
 		return len(recs)
 	}
+	b.expectTags = func() map[string]int {
+		mu.Lock()
+		defer mu.Unlock()
+		out := map[string]int{}
+		for i, n := range perEntry {
+			out[fmt.Sprintf("t%d", i)] = n
+		}
+		return out
+	}
 	gun = map[string]any{"type": "http", "target": tg.Addr()}
 	ammo = map[string]any{"type": ag.ProviderType(p.Format), "file": name, "limit": c.Shots, "preload": p.Preload,
 		"headers": []any{"[X-Common: cfg]"}}
@@ -231,6 +242,15 @@ func buildGRPC(c Case, b *built, viol *violations) (gun, ammo map[string]any, er
 			}
 		}
 		return len(calls)
+	}
+	b.expectTags = func() map[string]int {
+		mu.Lock()
+		defer mu.Unlock()
+		out := map[string]int{}
+		for i, n := range perEntry {
+			out[fmt.Sprintf("t%d", i)] = n
+		}
+		return out
 	}
 	gun = map[string]any{"type": "grpc", "target": tg.Addr(), "timeout": "20s"}
 	ammo = map[string]any{"type": "grpc/json", "file": name, "limit": c.Shots}
@@ -1084,23 +1104,32 @@ func mkGetNoMD(kv map[string]string) func(string) (string, bool) {
 	return func(k string) (string, bool) { v, ok := kv[k]; return v, ok }
 }
 
-// readOutput checks the aggregator's file: every line must be well-formed.
-func readOutput(c Case, name string, viol *violations) int {
+// readOutput checks the aggregator's file: every line must be well-formed. For phout it also
+// returns the number of samples per tag (the `#id` suffix removed) and checks that ammo ids are unique
+// where the gun sets them (http gun: one sample per ammo).
+func readOutput(c Case, name string, viol *violations) (int, map[string]int) {
 	data, err := afero.ReadFile(pand.FS(), name)
 	if err != nil {
 		viol.add("aggregator %s wrote no output: %v", c.Agg, err)
-		return 0
+		return 0, nil
 	}
 	n := 0
+	tags := map[string]int{}
+	ids := map[string]int{}
 	for _, ln := range strings.Split(strings.TrimSuffix(string(data), "\n"), "\n") {
 		if ln == "" {
 			continue
 		}
 		n++
 		if c.Agg == "phout" {
-			if f := strings.Split(ln, "\t"); len(f) != 12 {
+			f := strings.Split(ln, "\t")
+			if len(f) != 12 {
 				viol.add("phout line with %d columns (torn or interleaved write?): %q", len(f), ln)
+				continue
 			}
+			tag, id, _ := strings.Cut(f[1], "#")
+			tags[tag]++
+			ids[id]++
 		} else {
 			var v map[string]any
 			if json.Unmarshal([]byte(ln), &v) != nil {
@@ -1108,5 +1137,18 @@ func readOutput(c Case, name string, viol *violations) int {
 			}
 		}
 	}
-	return n
+	if c.Agg == "phout" && c.Kind == kindHTTP {
+		for id, k := range ids {
+			if k != 1 {
+				viol.add("phout: %d samples carry ammo id %q, every ammo is shot once: a sample was altered after it was reported or reused while in flight", k, id)
+			}
+		}
+		if len(ids) != n {
+			viol.add("phout: %d samples carry %d distinct ammo ids", n, len(ids))
+		}
+	}
+	if c.Agg != "phout" {
+		tags = nil
+	}
+	return n, tags
 }
